@@ -115,4 +115,149 @@ theorem minrealEntry_spec (close : K → K → Bool) (f : Frac K) (zeros poles :
       rw [← C_mul, div_mul_cancel₀ _ hd0]
     linear_combination (prodRoots r.1 * prodRoots poles) * hC - C n0 * hc
 
+/-! ### the hypothesis restricted to the roots at hand
+
+`cancelRoots_spec` asks the tolerance test to identify only equal elements of the whole field, which
+no positive tolerance satisfies.  What the loop needs is the statement for the zeros and poles it is
+given; that one is decidable on the root lists (`rootsSeparated`) and is certified by the driver on
+every call. -/
+
+omit [DecidableEq K] in
+theorem removeFirst_spec_mem (p : K → Bool) (l l' : List K) (h : removeFirst p l = some l') :
+    ∃ x ∈ l, p x = true ∧ prodRoots l = (X - C x) * prodRoots l' ∧ ∀ y ∈ l', y ∈ l := by
+  induction l generalizing l' with
+  | nil => simp [removeFirst] at h
+  | cons y ys ih =>
+    unfold removeFirst at h
+    by_cases hy : p y = true
+    · simp only [hy, if_true, Option.some.injEq] at h
+      subst h
+      exact ⟨y, List.mem_cons_self, hy, prodRoots_cons y ys, fun w hw => List.mem_cons_of_mem _ hw⟩
+    · simp only [hy, Bool.false_eq_true, if_false, Option.map_eq_some_iff] at h
+      obtain ⟨l'', hl'', rfl⟩ := h
+      obtain ⟨x, hxm, hx, hp, hsub⟩ := ih l'' hl''
+      refine ⟨x, List.mem_cons_of_mem _ hxm, hx, ?_, ?_⟩
+      · rw [prodRoots_cons, prodRoots_cons, hp]
+        ring
+      · intro w hw
+        rcases List.mem_cons.mp hw with rfl | hw
+        · exact List.mem_cons_self
+        · exact List.mem_cons_of_mem _ (hsub w hw)
+
+omit [DecidableEq K] in
+/-- the cancellation loop keeps `∏(X - z) / ∏(X - p)` (cross-multiplied), provided the tolerance
+test identifies only equal roots *among the given zeros and poles*. -/
+theorem cancelRoots_spec_on (close : K → K → Bool) (zs ps : List K)
+    (hclose : ∀ z ∈ zs, ∀ p ∈ ps, close z p = true → z = p) :
+    prodRoots zs * prodRoots (cancelRoots close zs ps).2
+      = prodRoots (cancelRoots close zs ps).1 * prodRoots ps := by
+  induction zs generalizing ps with
+  | nil => simp [cancelRoots]
+  | cons z zs ih =>
+    unfold cancelRoots
+    cases hrf : removeFirst (close z) ps with
+    | none =>
+      simp only [prodRoots_cons]
+      have := ih ps (fun z' hz' p hp => hclose z' (List.mem_cons_of_mem _ hz') p hp)
+      linear_combination (X - C z) * this
+    | some ps' =>
+      obtain ⟨x, hxm, hx, hp, hsub⟩ := removeFirst_spec_mem (close z) ps ps' hrf
+      have hzx : z = x := hclose z List.mem_cons_self x hxm hx
+      subst hzx
+      simp only [prodRoots_cons]
+      rw [hp]
+      have := ih ps' (fun z' hz' p hp' => hclose z' (List.mem_cons_of_mem _ hz') p (hsub p hp'))
+      linear_combination (X - C z) * this
+
+omit [DecidableEq K] in
+/-- every zero kept by the loop is one of the given zeros, every remaining pole one of the given
+poles (nothing is invented). -/
+theorem cancelRoots_mem (close : K → K → Bool) (zs ps : List K) :
+    (∀ z ∈ (cancelRoots close zs ps).1, z ∈ zs) ∧ (∀ p ∈ (cancelRoots close zs ps).2, p ∈ ps) := by
+  induction zs generalizing ps with
+  | nil => simp [cancelRoots]
+  | cons z zs ih =>
+    unfold cancelRoots
+    cases hrf : removeFirst (close z) ps with
+    | none =>
+      obtain ⟨h1, h2⟩ := ih ps
+      refine ⟨?_, h2⟩
+      intro w hw
+      rcases List.mem_cons.mp hw with rfl | hw
+      · exact List.mem_cons_self
+      · exact List.mem_cons_of_mem _ (h1 w hw)
+    | some ps' =>
+      obtain ⟨x, _, _, _, hsub⟩ := removeFirst_spec_mem (close z) ps ps' hrf
+      obtain ⟨h1, h2⟩ := ih ps'
+      exact ⟨fun w hw => List.mem_cons_of_mem _ (h1 w hw), fun w hw => hsub w (h2 w hw)⟩
+
+omit [DecidableEq K] in
+/-- the loop removes as many poles as zeros: the relative degree is unchanged. -/
+theorem cancelRoots_length (close : K → K → Bool) (zs ps : List K) :
+    (cancelRoots close zs ps).1.length + ps.length
+      = (cancelRoots close zs ps).2.length + zs.length := by
+  induction zs generalizing ps with
+  | nil => simp [cancelRoots]
+  | cons z zs ih =>
+    unfold cancelRoots
+    cases hrf : removeFirst (close z) ps with
+    | none =>
+      have := ih ps
+      simp only [List.length_cons]
+      omega
+    | some ps' =>
+      have hlen : ps.length = ps'.length + 1 := by
+        clear ih
+        induction ps generalizing ps' with
+        | nil => simp [removeFirst] at hrf
+        | cons y ys ihy =>
+          unfold removeFirst at hrf
+          by_cases hy : close z y = true
+          · simp only [hy, if_true, Option.some.injEq] at hrf
+            subst hrf; rfl
+          · simp only [hy, Bool.false_eq_true, if_false, Option.map_eq_some_iff] at hrf
+            obtain ⟨l'', hl'', rfl⟩ := hrf
+            simp [ihy l'' hl'']
+      have := ih ps'
+      simp only [List.length_cons]
+      omega
+
+theorem rootsSeparated_iff (close : K → K → Bool) (zs ps : List K) :
+    rootsSeparated close zs ps = true ↔ ∀ z ∈ zs, ∀ p ∈ ps, close z p = true → z = p := by
+  simp only [rootsSeparated, List.all_eq_true, Bool.or_eq_true, Bool.not_eq_true',
+    decide_eq_true_eq]
+  constructor
+  · intro h z hz p hp hc
+    rcases h z hz p hp with h' | h'
+    · rw [hc] at h'; cases h'
+    · exact h'
+  · intro h z hz p hp
+    by_cases hc : close z p = true
+    · exact Or.inr (h z hz p hp hc)
+    · left; simpa using hc
+
+theorem minrealEntry_spec_on (close : K → K → Bool) (f : Frac K) (zeros poles : List K)
+    (n0 d0 : K) (nt dt : List K) (hn : f.num = n0 :: nt) (hd : f.den = d0 :: dt) (hd0 : d0 ≠ 0)
+    (hzeros : toPoly f.num = C n0 * prodRoots zeros)
+    (hpoles : toPoly f.den = C d0 * prodRoots poles)
+    (hclose : ∀ z ∈ zeros, ∀ p ∈ poles, close z p = true → z = p) :
+    ∃ g, minrealEntry close f zeros poles = .ok g ∧ g.WF ∧ g.sem = f.sem := by
+  have hc := cancelRoots_spec_on close zeros poles hclose
+  set r := cancelRoots close zeros poles with hr
+  refine ⟨Frac.norm ⟨scale (n0 / d0) (polyFromRoots r.1), polyFromRoots r.2⟩, ?_, ?_, ?_⟩
+  · simp [minrealEntry, hn, hd, hd0, ← hr, pure, Except.pure]
+  · apply Frac.wf_norm
+    simp only [Frac.WF, toPoly_polyFromRoots]
+    exact prodRoots_ne_zero _
+  · rw [Frac.sem_norm]
+    simp only [Frac.sem, toPoly_scale, toPoly_polyFromRoots, hzeros, hpoles]
+    have h2 : ι' (prodRoots r.2) ≠ 0 := ι'_ne_zero (prodRoots_ne_zero _)
+    have h3 : ι' (C d0 * prodRoots poles) ≠ 0 :=
+      ι'_ne_zero (mul_ne_zero (by simpa using hd0) (prodRoots_ne_zero _))
+    rw [div_eq_div_iff h2 h3, ← ι'_mul, ← ι'_mul]
+    congr 1
+    have hC : (C (n0 / d0) : K[X]) * C d0 = C n0 := by
+      rw [← C_mul, div_mul_cancel₀ _ hd0]
+    linear_combination (prodRoots r.1 * prodRoots poles) * hC - C n0 * hc
+
 end CtrlVerif
